@@ -12,6 +12,9 @@ require (
 	github.com/golang/protobuf v1.5.2 // indirect
 	github.com/mr-tron/base58 v1.2.0 // indirect
 	github.com/pelletier/go-toml v1.9.0 // indirect
+	github.com/pkg/errors v0.9.1 // indirect
+	github.com/shirou/gopsutil v0.0.0-20190901111213-e4ec7b275ada // indirect
+	golang.org/x/sys v0.0.0-20210426080607-c94f62235c83 // indirect
 	google.golang.org/protobuf v1.26.0 // indirect
 )
 
